@@ -253,6 +253,39 @@ def check_model(ctx: Ctx, base: dict, doc: dict, edits: List[dict], seed: int, b
                 raise
             except Exception as e:
                 crash("testdata", e)
+        # ---- several model files -----------------------------------------------------------------
+        # merge is concatenation (C18), so cutting every declaration list of the document at any index into a first
+        # and a second file must not change what a plugin emits
+        if budget.get("split", True):
+            cuts: List[List[int]] = []
+            lists = ("requests", "notifications", "structures", "enumerations", "typeAliases")
+            mini(st.tuples(*[st.one_of(st.just(-1), st.just(0), st.integers(0, len(doc[k]))) for k in lists]), 1, (seed, "C06split", summ),
+                 lambda xs: cuts.append(list(xs)))
+            cut = {k: (len(base.get(k, [])) if c == -1 else c) for k, c in zip(lists, cuts[0])}   # -1: the new declarations go to the second file
+            cut = {k: min(c, len(doc[k])) for k, c in cut.items()}
+            first = {**{k: v for k, v in doc.items() if k not in lists}, **{k: doc[k][:cut[k]] for k in lists}}
+            second = {**{k: v for k, v in doc.items() if k not in lists}, **{k: doc[k][cut[k]:] for k in lists}}
+            for plugin, owned in (("python", os.path.join("lsprotocol", "types.py")), ("rust", os.path.join("lsprotocol", "src", "lib.rs"))):
+                outs = []
+                try:
+                    for tag, docs in (("one", [doc]), ("two", [first, second])):
+                        o = os.path.join(d, f"split-{plugin}-{tag}")
+                        evosubject.run_plugin_inprocess(plugin, docs, o)
+                        with open(os.path.join(o, owned), encoding="utf-8") as fh:
+                            outs.append(fh.read())
+                except HarnessError:
+                    raise
+                except Exception as e:
+                    if len(outs) == 1:   # the single-file generation works, the two-file one does not
+                        ctx.finding((f"split:plugin-crash:{crash_sig(e)}", plugin, "two-files"),
+                                    f"{plugin} plugin fails on the document cut into two files at {cut}: {type(e).__name__}: {str(e)[:160]}", {"edits": edits, "cut": cut})
+                    continue
+                stats["split_runs"] += 1
+                if outs[0] != outs[1]:
+                    import difflib
+                    dl = [ln for ln in difflib.unified_diff(outs[0].splitlines(), outs[1].splitlines(), lineterm="", n=0) if not ln.startswith(("---", "+++", "@@"))]
+                    ctx.finding(("split:output-differs", plugin, "two-files"),
+                                f"{plugin} output for the document cut into two files at {cut} differs from the one-file output: {dl[:4]}", {"edits": edits, "cut": cut})
         # ---- CLI sample ------------------------------------------------------------------------
         if cli_sample:
             mpath = os.path.join(d, "evolved.json")
